@@ -41,6 +41,10 @@ func genC09(g *gen, tier string) *Scenario {
 	sc.Family = kind + "," + mode
 	if prelude {
 		sc.Family += ",after-concurrent-use"
+		if g.pct(50) {
+			sc.Sim.AtomicFiles = []string{"buffer.go"} // the prelude interleaves the lossy buffer at single atomic steps
+			sc.Sim.SwitchPct = pick(g, 20, 35)
+		}
 		sc.Stubs.ListenerSlowPct = pick(g, 0, 30, 100)
 		sc.Stubs.ListenerSlowDur = int64(g.rng(100, 3000)) * ms
 		nc := g.rng(2, 4)
